@@ -970,21 +970,49 @@ var confirmClasses = []string{"valid", "valid", "valid", "valid", "valid", "v27"
 	"other-prefix", "other-key", "other-chain-checkpoint", "wrong-bridger", "unknown-ext", "missing-object", "nothex", "empty", "swapped-identity", "random65", "no-prefix",
 	// right in all but one coordinate
 	"wrong-token", "wrong-token", "wrong-token-spelling", "wrong-nonce", "wrong-nonce", "wrong-chain", "wrong-chain", "ext-of-other-oracle", "bridger-of-other-oracle",
-	"neighbour-sig", "neighbour-sig", "pruned-object", "pruned-object", "other-kind-same-nonce", "ext-spelling", "earlier-gid"}
+	"neighbour-sig", "neighbour-sig", "pruned-object", "pruned-object", "other-kind-same-nonce", "ext-spelling", "earlier-gid", "self-made-identity"}
 
-func (h *hCtx) randomConfirm(c *chainT, others []*chainT) {
+func (h *hCtx) randomConfirm(c *chainT, others []*chainT) { h.confirmOfClass(c, others, "", "") }
+
+// sweep: every confirm class once against an object of every kind, oracle 0 (a bonded one) — the systematic part of the
+// generator: each run contains every (class, kind) combination at least once, whatever the seed.
+func (h *hCtx) sweep(c *chainT, others []*chainT) {
+	seen := map[string]bool{}
+	for _, class := range confirmClasses {
+		if seen[class] {
+			continue
+		}
+		seen[class] = true
+		for _, kind := range []string{"oset", "batch", "bcall"} {
+			h.confirmOfClass(c, others, class, kind)
+		}
+	}
+	h.out.Count("sweep")
+}
+
+// confirmOfClass sends one confirm of the given class ("" = random) against an object of the given kind ("" = any).
+func (h *hCtx) confirmOfClass(c *chainT, others []*chainT, forceClass, forceKind string) {
 	rng := h.rng
 	if len(c.objs) == 0 || len(c.oracles) == 0 {
 		return
 	}
 	o := c.objs[rng.Intn(len(c.objs))]
 	or := c.oracles[rng.Intn(len(c.oracles))]
+	if forceKind != "" {
+		if o = pickObj(rng, c.objs, func(x *objT) bool { return x.kind == forceKind }); o == nil {
+			return
+		}
+		or = c.oracles[0]
+	}
 	bridger, ext := or.bridger.String(), or.ext
 	if rec, found := c.k.GetOracle(h.ctx, or.addr); found {
 		bridger = rec.BridgerAddress // after a bridger change the current one is the valid submitter
 	}
 	valid := c.sign(o.digest, or.key)
 	class := confirmClasses[rng.Intn(len(confirmClasses))]
+	if forceClass != "" {
+		class = forceClass
+	}
 	sig := valid
 	digest := o.digest
 	k := o.key()
@@ -1130,6 +1158,12 @@ func (h *hCtx) randomConfirm(c *chainT, others []*chainT) {
 		}
 		b := c.oracles[(or.id+1)%len(c.oracles)]
 		bridger, ext = b.bridger.String(), b.ext
+	case "self-made-identity":
+		// a consistent but unregistered identity: a fresh key, ITS address as external address, its signature over the
+		// right checkpoint — submitted by a registered oracle's bridger
+		k2, _ := crypto.GenerateKey()
+		ext = c.addrStr(crypto.PubkeyToAddress(k2.PublicKey).Bytes())
+		sig = c.sign(digest, k2)
 	case "unknown-ext":
 		ext = c.addrStr(genAddr20(rng))
 	case "missing-object":
@@ -1216,10 +1250,9 @@ func (h *hCtx) randomConfirm(c *chainT, others []*chainT) {
 		sig = c.sign(digest, or.key)
 	case "pruned-object":
 		// the oracle's valid signature over an object that was stored and has been removed
-		if len(c.gone) == 0 {
+		if o = pickObj(rng, c.gone, func(x *objT) bool { return forceKind == "" || x.kind == forceKind }); o == nil {
 			return
 		}
-		o = c.gone[rng.Intn(len(c.gone))]
 		k, digest = o.key(), o.digest
 		sig = c.sign(digest, or.key)
 	case "nothex":
@@ -1684,6 +1717,20 @@ func TestC12(t *testing.T) {
 		}
 		if rng.Intn(2) == 0 {
 			h.populateCluster(chains[2], nil)
+		}
+		if q < 3 {
+			// systematic part: on chain q, a few prunings first (so that pruned objects exist), then every class x kind
+			ci := q % len(chains)
+			var others []*chainT
+			for j, c := range chains {
+				if j != ci {
+					others = append(others, c)
+				}
+			}
+			for i := 0; i < 6; i++ {
+				h.randomRemove(chains[ci])
+			}
+			h.sweep(chains[ci], others)
 		}
 		for i := 0; i < nConf; i++ {
 			ci := rng.Intn(len(chains))
